@@ -668,7 +668,7 @@ def cases_file(goals):
     """goals: [(index, goal)] -> text of one scratch file; every goal is proved (or reported BAD) separately"""
     body = []
     for i, g in goals:
-        body.append(f"Goal True. ck {i}%nat ({g}). exact I. Qed.")
+        body.append(f"Goal True. ck {i}%Z ({g}). exact I. Qed.")
     return PRELUDE + "\n".join(body) + "\n"
 
 
@@ -680,7 +680,7 @@ def run_goals(ctx, goals, per_file, tag):
     res = C.coq_eval_many(ctx, files, timeout=1400)
     status, broken = {}, []
     for (ok, out), (name, _) in zip(res, files):
-        for mm in re.finditer(r"C08CASE (\d+)%nat (OK|BAD)", out):
+        for mm in re.finditer(r"C08CASE (\d+)%Z (OK|BAD)", out):
             status[int(mm.group(1))] = mm.group(2) == "OK"
         if not ok:
             broken.append({"what": f"cases file {name} failed to compile", "detail": out[-800:]})
@@ -690,7 +690,6 @@ def run_goals(ctx, goals, per_file, tag):
 def correspondence(ctx, model_ok=True):
     import time
     t0 = time.time()
-    an, attrs = analysis()
     out = {"failures": [], "broken": [], "evaluations": 0, "distinct_nontrivial": 0, "samples": [],
            "model_runner": "generated goals over the generated real-valued model, each proved by `interval` "
                            "(coq-interval, i_prec 80) inside sharded coqc runs",
@@ -706,6 +705,12 @@ def correspondence(ctx, model_ok=True):
                    "for logarithms/angles, times max(1, 1e-6*cond) with cond the cancellation factor of the formula; "
                    "theta through cos and sin) is proved by interval arithmetic; non-finite results must agree as tags. "
                    "non-trivial = goal whose particle has at least one attribute set; distinct by goal text"}
+    try:
+        an, attrs = analysis()
+    except Exception as e:
+        out["broken"].append({"what": "correspondence not run: the translator cannot read the methods",
+                              "detail": f"{type(e).__name__}: {e}"})
+        return out
     # ---- (a) complete enumeration of unset subsets
     ucases = unset_cases(an)
     goals, owners, seen = [], [], set()
@@ -731,7 +736,7 @@ def correspondence(ctx, model_ok=True):
             if any(v is not None for v in c["values"].values()):
                 seen.add(g)
     # ---- (b) samples
-    n = 45 if ctx.quick else 900
+    n = 45 if ctx.quick else 700
     scases = []
     corpus = os.path.join(C.VERIF, "corpus", ID)
     if os.path.isdir(corpus):
